@@ -46,8 +46,8 @@ CLAIMS = {
              text="Per concrete component structure ('..' / 1- / 2-char names; exhaustive to 3 components over three kinds and to 6 (7) components over {'..', 1-char name}) one query covers every name byte: result pointer inside the buffer, collapsed string equals the stack-based reference, nothing before the buffer written.",
              note="lookup by address and child search (apropos, operator[], path_search) over port tables are NOT claimed -- only the collapsePath clause", ref="4/C18"),
  "C19": dict(units="src/cpp/automations.cpp via IR, src/rtosc.c",
-             text="Learn queue by one-step induction from every valid pre-state of 2..3 (5) slots: clearSlot(c) and handleMidi(symbolic plain controller) preserve the queue invariant, keep request order, bind exactly the first waiting slot, a bound controller drives exactly its slots. Output: for enumerated declared ranges/types, all pairs of slot values in [-2,3]: address, type, value inside [min,max], monotone, 0->min and 1->max at default gain/offset.",
-             note="createBinding/setSlotSubPath (port lookup, atof) not encoded; log scale outside; NRPN outside; roundf model", ref="4/C19"),
+             text="Learn queue by one-step induction from every valid pre-state of 2..3 (5) slots: createBinding(c, path, learn / no learn) over a directly constructed port table, clearSlot(c) and handleMidi(symbolic plain controller) preserve the queue invariant, keep request order, bind exactly the first waiting slot, a bound controller drives exactly its slots. Output: for enumerated declared ranges/types, all pairs of slot values in [-2,3]: address, type, value inside [min,max], monotone, 0->min and 1->max at default gain/offset.",
+             note="setSlotSubPath not encoded; createBinding only for a float port with bounds and a port without bounds (binding the toggle port does not finish); log scale outside; NRPN outside; roundf/atof models", ref="4/C19"),
 }
 NA = {
  "C09": "walk_ports/port_is_enabled need port trees plus snprintf formatting and Capture/std::vector scratch buffers of get_value_from_runtime; not encodable within reach",
